@@ -844,3 +844,101 @@ Proof.
   intros Hn. apply (unforwarded_stays_local n posts sched i 0 State (Advance None) Hn (Nat.le_0_l n)).
   rewrite advance_crosses. reflexivity.
 Qed.
+
+(* ---- what the delivered copies carry ------------------------------------------ *)
+
+(* a delivery is either the local one on the publishing side (message as
+   posted) or a remote copy stamped with the publisher's name, flag cleared *)
+Definition marked (posts : list post) (e : event) : Prop :=
+  exists s0 c0 src, nth_error posts (e_id e) = Some (s0, c0, src) /\ e_chan e = c0 /\
+    ((e_side e = s0 /\ e_origin e = m_origin (source_msg s0 (e_id e) src)
+                    /\ e_fwd e = m_fwd (source_msg s0 (e_id e) src))
+     \/ (e_side e <> s0 /\ e_origin e = Some s0 /\ e_fwd e = Some false)).
+
+(* the only publications ever in flight *)
+Definition pub_ok (posts : list post) (p : pub) : Prop :=
+  exists i s0 c0 src, nth_error posts i = Some (s0, c0, src) /\
+    (p = post_pub i (s0, c0, src)
+     \/ p = mkpub (Proxy c0) (Prx c0) (mkmsg i (Some s0) (Some false))
+     \/ exists s', s' <> s0 /\ p = mkpub (Local s' c0) (Lcl c0) (mkmsg i (Some s0) (Some false))).
+
+Lemma in_deliveries sides p e :
+  In e (deliveries sides p) -> exists s, In s sides /\ In e (side_deliv s p).
+Proof. rewrite deliveries_sides. intros H. apply in_flat_map in H. exact H. Qed.
+
+Lemma pub_ok_deliveries sides posts p e :
+  pub_ok posts p -> In e (deliveries sides p) -> marked posts e.
+Proof.
+  intros (i & s0 & c0 & src & Hn & [-> | [-> | (s' & Hne & ->)]]) He;
+    apply in_deliveries in He as (s & _ & He).
+  - unfold post_pub in He. rewrite side_deliv_local in He.
+    destruct (Nat.eqb s0 s) eqn:E; simpl in He; [|contradiction]. apply Nat.eqb_eq in E. subst s.
+    rewrite chan_eqb_refl in He. destruct He as [<-|[]]. unfold marked; simpl.
+    rewrite source_msg_id. exists s0, c0, src.
+    split; [exact Hn|]. split; [reflexivity|]. left. split; [reflexivity | split; reflexivity].
+  - rewrite side_deliv_proxy in He. contradiction.
+  - rewrite side_deliv_local in He.
+    destruct (Nat.eqb s' s) eqn:E; simpl in He; [|contradiction]. apply Nat.eqb_eq in E. subst s.
+    rewrite chan_eqb_refl in He. destruct He as [<-|[]]. unfold marked; simpl.
+    exists s0, c0, src.
+    split; [exact Hn|]. split; [reflexivity|]. right. split; [exact Hne | split; reflexivity].
+Qed.
+
+Lemma pub_ok_children sides posts p q :
+  pub_ok posts p -> In q (children sides p) -> pub_ok posts q.
+Proof.
+  intros (i & s0 & c0 & src & Hn & [-> | [-> | (s' & Hne & ->)]]) Hq.
+  - unfold post_pub in Hq. apply in_children in Hq as (s & _ & Hq). rewrite side_children_local in Hq.
+    destruct (Nat.eqb s0 s) eqn:E; simpl in Hq; [|contradiction]. apply Nat.eqb_eq in E. subst s.
+    rewrite chan_eqb_refl in Hq.
+    destruct (pubsub_fwd s0 false (source_msg s0 i src)) as [m'|] eqn:Ef; [|contradiction].
+    destruct Hq as [<-|[]]. apply fwd_out_spec in Ef as (Ho & Hf & Hi & _).
+    rewrite source_msg_id in Hi. destruct m' as [i' o' f']. simpl in *. subst i' o' f'.
+    exists i, s0, c0, src. auto.
+  - apply child_of_proxy in Hq as (s & o & -> & _ & Ho & Hne). simpl in Ho. injection Ho as <-.
+    exists i, s0, c0, src. split; [exact Hn|]. right. right. exists s. auto.
+  - rewrite (foreign_local_childless sides s' c0 (Lcl c0) (mkmsg i (Some s0) (Some false)) s0 eq_refl) in Hq;
+      [contradiction|]. intros Heq. apply Hne. symmetry. exact Heq.
+Qed.
+
+Definition net_ok (posts : list post) (st : net) : Prop :=
+  Forall (pub_ok posts) (pending st) /\ Forall (marked posts) (log st).
+
+Lemma step_ok sides posts k st st' : net_ok posts st -> step sides k st = Some st' -> net_ok posts st'.
+Proof.
+  intros [Hp Hl] H. unfold step in H.
+  destruct (pick k (pending st)) as [[p rest]|] eqn:E; [|discriminate]. injection H as <-.
+  apply pick_split in E as (a & b & Hab & ->). rewrite Hab in Hp.
+  apply Forall_app in Hp as [Ha Hb]. inversion Hb as [|p' b' Hpk Hb' Heq]. subst p' b'.
+  split; simpl.
+  - apply Forall_app. split; [apply Forall_app; split; assumption|].
+    apply Forall_forall. intros q Hq. exact (pub_ok_children sides posts p q Hpk Hq).
+  - apply Forall_app. split; [exact Hl|].
+    apply Forall_forall. intros e He. exact (pub_ok_deliveries sides posts p e Hpk He).
+Qed.
+
+Lemma run_ok sides posts fuel : forall sched st, net_ok posts st -> net_ok posts (run sides fuel sched st).
+Proof.
+  induction fuel as [|f IH]; intros sched st H; simpl; [exact H|].
+  destruct (step sides (hd 0 sched) st) as [st'|] eqn:E; [|exact H].
+  apply IH. exact (step_ok sides posts _ st st' H E).
+Qed.
+
+Lemma posts_from_ok posts : forall l k,
+  (forall j x, nth_error l j = Some x -> nth_error posts (k + j) = Some x) ->
+  Forall (pub_ok posts) (posts_from k l).
+Proof.
+  induction l as [|[[s0 c0] src] l IH]; intros k H; simpl; [constructor|]. constructor.
+  - exists k, s0, c0, src. split; [|left; reflexivity].
+    rewrite <- (Nat.add_0_r k). apply H. reflexivity.
+  - apply IH. intros j x Hj. replace (S k + j) with (k + S j) by lia. apply H. exact Hj.
+Qed.
+
+Lemma delivered_copies_marked n posts sched e :
+  In e (log (network n posts sched)) -> marked posts e.
+Proof.
+  assert (H : net_ok posts (network n posts sched)).
+  { unfold network. apply run_ok. split; simpl; [|constructor].
+    apply posts_from_ok. intros j x Hj. exact Hj. }
+  destruct H as [_ H]. rewrite Forall_forall in H. apply H.
+Qed.
